@@ -36,6 +36,12 @@ OPS = [
     (r'\.split_once\(', '.rsplit_once('), (r'\.find\(', '.rfind('),
     (r'\.to_ascii_lowercase\(\)', '.to_ascii_uppercase()'), (r'\.to_lowercase\(\)', '.to_uppercase()'),
     (r'\.saturating_sub\(', '.wrapping_sub('), (r'\.checked_mul\(', '.checked_add('),
+    # round 2
+    (r'if !', 'if '), (r' \+ ', ' - '), (r' - ', ' + '), (r' \* ', ' / '), (r'\.\.=', '..'), (r' << ', ' >> '), (r' >> ', ' << '),
+    (r' & ', ' | '), (r' \| ', ' & '), (r'\.push\(', '.insert(0, '), (r'\.skip\(1\)', '.skip(0)'), (r'\.take\(', '.skip('),
+    (r'\.rev\(\)', ''), (r'\bbreak;', 'continue;'), (r'\.to_string\(\)\.to_lowercase\(\)', '.to_string()'),
+    (r'\.unwrap_or_default\(\)', '.unwrap()'), (r'\.is_empty\(\)', '.len() == 1'),
+    (r' >= ', ' == '), (r' <= ', ' == '), (r'\.or_else\(', '.and_then('), (r'\.any\(', '.all('), (r'\.all\(', '.any('),
 ]
 NUM = re.compile(r'(?<![\w."\'])(\d{1,5})(?![\w."\'])')
 
@@ -169,7 +175,19 @@ def work(planfile, ws, i, n):
                     res['outcome'] = 'killed-by-tests'
                 else:
                     res['checks'] = {}
-                    for p in m['props']:
+                    COST = {'C05': 1, 'C19': 1, 'C04': 2, 'C06': 3, 'C02': 3, 'C15': 3, 'C09': 3, 'C17': 4, 'C03': 4, 'C14': 4, 'C12': 4,
+                            'C08': 5, 'C07': 5, 'C10': 5, 'C20': 6, 'C13': 6, 'C16': 6, 'C01': 7, 'C11': 7, 'C18': 9}
+                    related = {'humphrey-ws/src/handler.rs': ['C12'], 'humphrey/src/route.rs': ['C01'], 'humphrey/src/http/headers.rs': ['C01', 'C09'],
+                               'humphrey/src/http/response.rs': ['C02'], 'humphrey/src/http/request.rs': ['C09', 'C19'],
+                               'humphrey/src/krauss.rs': ['C15', 'C06'], 'humphrey/src/http/status.rs': ['C01', 'C09'],
+                               'humphrey/src/http/address.rs': ['C01'], 'humphrey-ws/src/util/sha1.rs': ['C11'],
+                               'humphrey-ws/src/util/base64.rs': ['C11'], 'humphrey/src/percent.rs': ['C09'],
+                               'humphrey/src/http/date.rs': ['C01'], 'humphrey/src/http/mime.rs': ['C04'],
+                               'humphrey-server/src/server/server.rs': ['C04', 'C06'], 'humphrey-server/src/config/config.rs': ['C04']}
+                    todo = sorted(set(m['props']) | set(related.get(m['file'], [])), key=lambda q: COST.get(q, 5))
+                    for p in todo:
+                        if any(c['outcome'] != 'quiet' for c in res['checks'].values()):
+                            break
                         rc, out, dt = sh('timeout 1200 ./vp %s quick' % p, verif, env, timeout=1300)
                         viol = [l for l in out.split('\n') if l.startswith('VIOLATION')]
                         if rc == 124 or rc == 137:
